@@ -568,7 +568,10 @@ func DetExpr(c *core.Ctx, rule string) {
 				return false, "method value"
 			case *ast.CallExpr: // e is an argument
 				if isSortCall(info, pp) {
-					return true, "sorted by " + exprString(pp.Fun)
+					if totalOrderSort(info, pp) {
+						return true, "sorted by " + exprString(pp.Fun) + " with a natural total order"
+					}
+					return false, "sorted by " + exprString(pp.Fun) + " with a custom comparator (elements it does not distinguish stay in map order)"
 				}
 				name := ""
 				switch f := ast.Unparen(pp.Fun).(type) {
@@ -656,4 +659,42 @@ func DetExpr(c *core.Ctx, rule string) {
 		})
 	}
 	c.Floor(rule, "iterator-style sources", n, 4)
+}
+
+// totalOrderSort: the sort call orders by a natural total order of the elements — sort.Strings/Ints, slices.Sort,
+// or an fp Sort whose Ord argument is ord.Given[T]() or ord.ContraMap(ord.Given[T](), keyAccessor) (a map's keys are
+// pairwise distinct, so ordering entries by key is total). Anything else may leave ties in input (= map) order.
+func totalOrderSort(info *types.Info, call *ast.CallExpr) bool {
+	callee := calleeOf(info, call)
+	if callee == nil || callee.Pkg() == nil {
+		return false
+	}
+	switch callee.Pkg().Path() {
+	case "sort":
+		return callee.Name() == "Strings" || callee.Name() == "Ints" || callee.Name() == "Float64s"
+	case "slices":
+		return callee.Name() == "Sort"
+	}
+	if len(call.Args) < 2 {
+		return false
+	}
+	var natural func(e ast.Expr) bool
+	natural = func(e ast.Expr) bool {
+		c2, ok := ast.Unparen(e).(*ast.CallExpr)
+		if !ok {
+			return false
+		}
+		f := calleeOf(info, c2)
+		if f == nil || f.Pkg() == nil || !strings.HasSuffix(f.Pkg().Path(), "/ord") {
+			return false
+		}
+		switch f.Name() {
+		case "Given":
+			return true
+		case "ContraMap", "GivenField":
+			return len(c2.Args) >= 1 && (f.Name() == "GivenField" || natural(c2.Args[0]))
+		}
+		return false
+	}
+	return natural(call.Args[1])
 }
